@@ -35,7 +35,68 @@ import (
 var _ = verifRegister("C29", engineC29)
 var _ = verifParam("C29", "max_keys", func() int64 { return int64(global.VerifC29MaxKeys()) })
 
-var c29Pool = []string{"c29-pw-zero", "c29-pw-one", "c29-pw-two", "c29-pw-never"}
+var c29PoolNames = []string{"c29-pw-zero", "c29-pw-one", "c29-pw-two", "c29-pw-never"}
+
+// c29Pw: password with index i (0..3 the shared pool, larger indices: one password per key)
+func c29Pw(i int) string {
+	if i >= 0 && i < len(c29PoolNames) {
+		return c29PoolNames[i]
+	}
+	return fmt.Sprintf("c29-unique-pw-%d", i)
+}
+
+// c29FaultBackend: stores key files damaged (empty) on demand and lists unreadable key files (the
+// named one, or empty ones) after (order 1) or before (order 2) all other key files, so that runs do
+// not depend on the random order of key file names.
+type c29FaultBackend struct {
+	backend.Backend
+	damage  bool
+	order   int
+	newName string
+}
+
+func (b *c29FaultBackend) Unwrap() backend.Backend { return b.Backend }
+
+func (b *c29FaultBackend) Save(ctx context.Context, h backend.Handle, rd backend.RewindReader) error {
+	if h.Type == backend.KeyFile {
+		b.newName = h.Name
+		if b.damage {
+			return b.Backend.Save(ctx, h, backend.NewByteReader([]byte{}, nil))
+		}
+	}
+	return b.Backend.Save(ctx, h, rd)
+}
+
+func (b *c29FaultBackend) List(ctx context.Context, t backend.FileType, fn func(backend.FileInfo) error) error {
+	if t != backend.KeyFile || b.order == 0 {
+		return b.Backend.List(ctx, t, fn)
+	}
+	var good, bad []backend.FileInfo
+	err := b.Backend.List(ctx, t, func(fi backend.FileInfo) error {
+		if fi.Size == 0 || (b.newName != "" && fi.Name == b.newName) {
+			bad = append(bad, fi)
+		} else {
+			good = append(good, fi)
+		}
+		return nil
+	})
+	if err != nil {
+		return err
+	}
+	files := append(append([]backend.FileInfo{}, good...), bad...)
+	if b.order == 2 {
+		files = append(append([]backend.FileInfo{}, bad...), good...)
+	}
+	for _, fi := range files {
+		if ctx.Err() != nil {
+			return ctx.Err()
+		}
+		if err := fn(fi); err != nil {
+			return err
+		}
+	}
+	return nil
+}
 
 type c29World struct {
 	c      *vctx
@@ -77,7 +138,7 @@ func c29Repo(ctx context.Context, dir string) (*repository.Repository, error) {
 	if err != nil {
 		return nil, err
 	}
-	return repository.New(lb, repository.Options{})
+	return repository.New(&c29FaultBackend{Backend: lb, order: 1}, repository.Options{})
 }
 
 // key files in listing order
@@ -136,12 +197,6 @@ func (w *c29World) search(ctx context.Context, dir, pw, hint string) (string, st
 
 func (w *c29World) searchCases(ctx context.Context, dir string, rng *vrng, perSize int) {
 	names := c29List(ctx, dir)
-	allGood := true
-	for _, n := range names {
-		if p, ok := w.pwOf[n]; !ok || p < 0 {
-			allGood = false
-		}
-	}
 	type q struct {
 		pw   int
 		hint string
@@ -173,6 +228,23 @@ func (w *c29World) searchCases(ctx context.Context, dir string, rng *vrng, perSi
 		qs = append(qs, q{w.pwOf[last], last}, q{w.pwOf[last], ""})
 	}
 	for _, x := range qs {
+		w.emitSearch(ctx, dir, names, x.pw, x.hint, "")
+	}
+}
+
+// emitSearch runs one real search and emits the case
+func (w *c29World) emitSearch(ctx context.Context, dir string, names []string, pwIdx int, hint string, tag string) {
+	allGood := true
+	for _, n := range names {
+		if p, ok := w.pwOf[n]; !ok || p < 0 {
+			allGood = false
+		}
+	}
+	type q struct {
+		pw   int
+		hint string
+	}
+	for _, x := range []q{{pwIdx, hint}} {
 		var matches []string
 		if x.hint != "" {
 			for _, n := range names {
@@ -181,9 +253,12 @@ func (w *c29World) searchCases(ctx context.Context, dir string, rng *vrng, perSi
 				}
 			}
 		}
-		obs, class := w.search(ctx, dir, c29Pool[x.pw], x.hint)
+		obs, class := w.search(ctx, dir, c29Pw(x.pw), x.hint)
 		term := fmt.Sprintf("CS (mkS %s %s %s %s %s)", w.keysTerm(names), coqN(uint64(x.pw+10)), coqBool(x.hint != ""), coqList(matches), obs)
 		kind := "search"
+		if tag != "" {
+			kind += "-" + tag
+		}
 		if len(names) > global.VerifC29MaxKeys() {
 			kind += "-over-limit"
 		}
@@ -207,16 +282,22 @@ type c29Cmd struct {
 // runHistoryCase runs cmd with session password index sess on e (observing), cut = -1 none; failVerify: every
 // read of the newly saved key fails
 func (w *c29World) runHistoryCase(ctx context.Context, e *venv, sess int, cmd c29Cmd, cut int, failVerify bool) (trace []vop) {
+	return w.runHistoryCaseX(ctx, e, sess, cmd, cut, failVerify, false, 0)
+}
+
+// runHistoryCaseX: damaged = the backend stores the new key file empty; order = listing position of the
+// unreadable new key file (1 after, 2 before all others, 0 as it comes)
+func (w *c29World) runHistoryCaseX(ctx context.Context, e *venv, sess int, cmd c29Cmd, cut int, failVerify, damaged bool, order int) (trace []vop) {
 	before := c29List(ctx, e.repo)
 	// which key does the session use
 	cur := ""
 	if repo, err := c29Repo(ctx, e.repo); err == nil {
-		if repo.SearchKey(ctx, c29Pool[sess], global.VerifC29MaxKeys(), "") == nil {
+		if repo.SearchKey(ctx, c29Pw(sess), global.VerifC29MaxKeys(), "") == nil {
 			cur = repo.KeyID().String()
 		}
 	}
 	pwfile := filepath.Join(e.base, "newpw")
-	_ = os.WriteFile(pwfile, []byte(c29Pool[cmd.newpw]+"\n"), 0o600)
+	_ = os.WriteFile(pwfile, []byte(c29Pw(cmd.newpw)+"\n"), 0o600)
 	e.rec.Reset()
 	e.rec.CutAt = cut
 	if failVerify {
@@ -231,8 +312,17 @@ func (w *c29World) runHistoryCase(ctx context.Context, e *venv, sess int, cmd c2
 			return nil
 		}
 	}
-	_, _, _ = e.run(func(ctx context.Context, gopts global.Options) error {
-		gopts.Password = c29Pool[sess]
+	if damaged || order != 0 {
+		rec := e.rec
+		saveHook := e.gopts.BackendInnerTestHook
+		defer func() { e.gopts.BackendInnerTestHook = saveHook }()
+		e.gopts.BackendInnerTestHook = func(be backend.Backend) (backend.Backend, error) {
+			return &c29FaultBackend{Backend: &vrecBackend{Backend: be, r: rec}, damage: damaged, order: order}, nil
+		}
+	}
+	var cmdErr error
+	_, _, cmdErr = e.run(func(ctx context.Context, gopts global.Options) error {
+		gopts.Password = c29Pw(sess)
 		switch cmd.kind {
 		case "add":
 			return runKeyAdd(ctx, gopts, KeyAddOptions{NewPasswordFile: pwfile}, nil, gopts.Term)
@@ -269,8 +359,8 @@ func (w *c29World) runHistoryCase(ctx context.Context, e *venv, sess int, cmd c2
 	sort.Strings(afterT)
 	var opens []string
 	same := true
-	for pw := range c29Pool {
-		obs, class := w.search(ctx, e.repo, c29Pool[pw], "")
+	for pw := 0; pw < 4; pw++ {
+		obs, class := w.search(ctx, e.repo, c29Pw(pw), "")
 		opens = append(opens, coqTuple(coqN(uint64(pw+10)), coqBool(class == "found")))
 		if class == "found" && !strings.HasSuffix(obs, " 1%N)") {
 			same = false
@@ -289,8 +379,9 @@ func (w *c29World) runHistoryCase(ctx context.Context, e *venv, sess int, cmd c2
 	if newid != "" {
 		nid = w.n(newid)
 	}
-	term := fmt.Sprintf("CH (mkH %s 1%%N %s %s %s %s %s %s %s %s %s)", w.keysTerm(before), coqN(w.n(cur)), cmdT, coqN(nid),
-		coqBool(cut >= 0), coqBool(!failVerify), coqList(tr), coqList(afterT), coqList(opens), coqBool(same))
+	unreadable := failVerify || damaged
+	term := fmt.Sprintf("CH (mkH %s 1%%N %s %s %s %s %s %s %s %s %s %s %s)", w.keysTerm(before), coqN(w.n(cur)), cmdT, coqN(nid),
+		coqBool(cut >= 0), coqBool(!unreadable), coqList(tr), coqList(afterT), coqList(opens), coqBool(same), coqN(uint64(order)), coqBool(cmdErr == nil))
 	kind := "key-" + cmd.kind
 	if cmd.kind == "remove" && cmd.target == cur {
 		kind += "-current"
@@ -298,8 +389,13 @@ func (w *c29World) runHistoryCase(ctx context.Context, e *venv, sess int, cmd c2
 	if cut >= 0 {
 		kind += "-cut"
 	}
-	if failVerify {
-		kind += "-verify-fails"
+	if damaged {
+		kind += fmt.Sprintf("-damaged-upload-order%d", order)
+	}
+	if failVerify || damaged {
+		if failVerify {
+			kind += "-verify-fails"
+		}
 		for _, n := range before {
 			if w.pwOf[n] == cmd.newpw {
 				kind += "-shared-pw"
@@ -309,7 +405,7 @@ func (w *c29World) runHistoryCase(ctx context.Context, e *venv, sess int, cmd c2
 	}
 	w.c.Hist(fmt.Sprintf("key-ops=%d", len(trace)))
 	w.c.Case(kind, len(trace) > 0, len(before)+len(trace), term,
-		fmt.Sprintf("keys=%d session-pw=%d %s newpw=%d target=%.8s cut=%d -> trace=%v keys-after=%d opens=%v same-master=%v", len(before), sess, cmd.kind, cmd.newpw, cmd.target, cut, trace, len(after), opens, same))
+		fmt.Sprintf("keys=%d session-pw=%d %s newpw=%d target=%.8s cut=%d damaged=%v order=%d -> err=%v trace=%v keys-after=%d opens=%v same-master=%v", len(before), sess, cmd.kind, cmd.newpw, cmd.target, cut, damaged, order, cmdErr, trace, len(after), opens, same))
 	return trace
 }
 
@@ -324,7 +420,7 @@ func engineC29(c *vctx) error {
 
 	newRepo := func(name string) (*venv, error) {
 		e := newVenv(c, name)
-		e.gopts.Password = c29Pool[0]
+		e.gopts.Password = c29Pw(0)
 		var err error
 		_, _, _ = e.run(func(ctx context.Context, gopts global.Options) error {
 			lb, lerr := local.Create(ctx, local.Config{Path: e.repo, Connections: 2}, nil)
@@ -337,7 +433,7 @@ func engineC29(c *vctx) error {
 				err = rerr
 				return nil
 			}
-			if err = repo.Init(ctx, restic.StableRepoVersion, c29Pool[0], nil); err != nil {
+			if err = repo.Init(ctx, restic.StableRepoVersion, c29Pw(0), nil); err != nil {
 				return nil
 			}
 			w.master, _ = json.Marshal(repo.Key())
@@ -357,7 +453,7 @@ func engineC29(c *vctx) error {
 		if err != nil {
 			return err
 		}
-		if err := repo.SearchKey(ctx, c29Pool[0], 0, ""); err != nil {
+		if err := repo.SearchKey(ctx, c29Pw(0), 0, ""); err != nil {
 			return err
 		}
 		sizes := map[int]bool{1: true, 2: true, 3: true, 6: true, 20: true, 21: true, 23: true}
@@ -368,7 +464,7 @@ func engineC29(c *vctx) error {
 				if n >= 20 {
 					pw = 1 + rng.intn(2) // password 0 only among the first keys created
 				}
-				k, err := repository.AddKey(ctx, repo, c29Pool[pw], "", "", repo.Key())
+				k, err := repository.AddKey(ctx, repo, c29Pw(pw), "", "", repo.Key())
 				if err != nil {
 					return err
 				}
@@ -389,6 +485,49 @@ func engineC29(c *vctx) error {
 				w.pwOf[id.String()] = -1
 				w.searchCases(ctx, g.repo, rng, 2)
 				_ = os.RemoveAll(g.base)
+			}
+		}
+		_ = os.RemoveAll(e.base)
+	}
+
+	// ---------- (L) the key limit: every key its own password, hints naming a key with another password ----------
+	{
+		e, err := newRepo("c29-limit")
+		if err != nil {
+			return err
+		}
+		repo, err := c29Repo(ctx, e.repo)
+		if err != nil {
+			return err
+		}
+		if err := repo.SearchKey(ctx, c29Pw(0), 0, ""); err != nil {
+			return err
+		}
+		max := global.VerifC29MaxKeys()
+		for n := 2; n <= max+1; n++ {
+			k, err := repository.AddKey(ctx, repo, c29Pw(100+n), "", "", repo.Key())
+			if err != nil {
+				return err
+			}
+			w.pwOf[k.ID().String()] = 100 + n
+			if n < max-1 {
+				continue
+			}
+			names := c29List(ctx, e.repo)
+			for i := range names {
+				if n != max && i < len(names)-2 && !c.thorough() {
+					continue
+				}
+				pw := w.pwOf[names[i]]
+				other := names[(i+1)%len(names)]
+				hints := []string{other}
+				if i >= len(names)-2 {
+					hints = append(hints, other[:8], "", names[i])
+				}
+				for _, h := range hints {
+					w.c.Hist(fmt.Sprintf("limit-n%+d-pos-from-end=%d", n-max, min(len(names)-1-i, 3)))
+					w.emitSearch(ctx, e.repo, names, pw, h, "limit")
+				}
 			}
 		}
 		_ = os.RemoveAll(e.base)
@@ -431,7 +570,7 @@ func engineC29(c *vctx) error {
 				cmd = c29Cmd{kind: "passwd", newpw: rng.intn(3)}
 			default:
 				cur := ""
-				if repo, err := c29Repo(ctx, e.repo); err == nil && repo.SearchKey(ctx, c29Pool[sess], 0, "") == nil {
+				if repo, err := c29Repo(ctx, e.repo); err == nil && repo.SearchKey(ctx, c29Pw(sess), 0, "") == nil {
 					cur = repo.KeyID().String()
 				}
 				target := cur
@@ -472,6 +611,20 @@ func engineC29(c *vctx) error {
 					}
 					if !used {
 						cmd2.newpw = pw
+					}
+				}
+				// the backend stores the new key file damaged (empty), new password = session password
+				// (and, for variety, another used one); unreadable file listed after / before the others
+				if si < 6 || c.thorough() {
+					for _, order := range []int{1, 2} {
+						cmd4 := cmd
+						cmd4.newpw = sess
+						cl, err := c29Clone(c, e, fmt.Sprintf("c29-damaged%d", order))
+						if err != nil {
+							return err
+						}
+						w.runHistoryCaseX(ctx, cl, sess, cmd4, -1, false, true, order)
+						_ = os.RemoveAll(cl.base)
 					}
 				}
 				// and a password another key (or the key in use) already has: the verification may then
